@@ -18,7 +18,7 @@ func init() { register(c08{}) }
 func (c08) ID() string    { return "C08" }
 func (c08) Level() string { return "fault_enumeration" }
 func (c08) Rule() string {
-	return "fault enumeration: frames (all types, short forms, multi-byte remaining lengths, malformed content, type 0) x EVERY cut offset k in [0, frame length) for frames up to 4 KiB (field boundaries +-2 and a log-spaced sample above) x failure {io.EOF, sentinel error E, E wrapped} x style {error on the call after the data, error together with the last data} x prefix delivery {contiguous, one byte at a time, random chunks}. Oracle: nil packet and non-nil error; errors.Is(err, E) for an injected E; errors.Is(err, io.EOF) for EOF at k=0; a packet only if every byte was delivered (counted by the scripted reader). distinct = (frame digest, k, failure, style, delivery); non-trivial = k > 0"
+	return "fault enumeration: frames (all types, short forms, multi-byte remaining lengths, malformed content, type 0) x EVERY cut offset k in [0, frame length) for frames up to 4 KiB (field boundaries +-2 and a log-spaced sample above) x failure {io.EOF, sentinel error E, E wrapped, an error that is E and unwraps to io.EOF} x style {error on the call after the data, error together with the last data} x prefix delivery {contiguous, one byte at a time, random chunks}. Oracle: nil packet and non-nil error; errors.Is(err, E) for an injected E; errors.Is(err, io.EOF) for EOF at k=0; a packet only if every byte was delivered (counted by the scripted reader). distinct = (frame digest, k, failure, style, delivery); non-trivial = k > 0"
 }
 func (c08) Assumptions() []string {
 	return []string{"readers obey the io.Reader contract; after reporting an error the reader keeps reporting it", "inside a frame io.EOF and io.ErrUnexpectedEOF are both acceptable (only non-nil is required)"}
@@ -83,7 +83,7 @@ func (c08) Run(c *run.Ctx, phase, idx int) {
 		name string
 		err  error
 	}
-	fails := []failure{{"eof", io.EOF}, {"E", mon.ErrInjected}, {"wrapped-E", wrapped}}
+	fails := []failure{{"eof", io.EOF}, {"E", mon.ErrInjected}, {"wrapped-E", wrapped}, {"E-wrapping-eof", mon.EOFWrappingErr{}}}
 	for ci, k := range cuts {
 		if ci%256 == 0 {
 			c.Tick()
@@ -127,7 +127,7 @@ func (c08) Run(c *run.Ctx, phase, idx int) {
 		}
 	}
 	if c.WantSample() && n > 4 {
-		c.Sample(map[string]interface{}{"frame": hexClip(f.Bytes, 48), "type": tname(f.Type), "kind": f.Kind, "frame_len": n, "cut_offsets": len(cuts), "failures": []string{"eof", "E", "wrapped-E"}, "styles": []string{"after-data", "with-last-data"}})
+		c.Sample(map[string]interface{}{"frame": hexClip(f.Bytes, 48), "type": tname(f.Type), "kind": f.Kind, "frame_len": n, "cut_offsets": len(cuts), "failures": []string{"eof", "E", "wrapped-E", "E-wrapping-eof"}, "styles": []string{"after-data", "with-last-data"}})
 	}
 }
 
